@@ -61,6 +61,8 @@ class Adversary(InstructionGenerator):
             if rng.random() > self.p_instr:
                 continue
             k = rng.choice(self.kinds)
+            if v.id.startswith("vr") and rng.random() < 0.5:
+                k = "ChargeBase"        # the vehicle standing at a remote base station keeps asking to charge "at the base"
 
             def pick(ids, bogus, here_attr=None):
                 if not ids or rng.random() < self.p_bogus:
